@@ -23,7 +23,7 @@ BOUNDS = {
 }
 OUTSIDE = "larger shapes; float rounding; -inf*0 for zero-count reads of zero probability"
 # (ploidy, sites, alleles, reads, reads-with-symbolic-gap-flags, groups)
-QUICK = [(2, 2, 2, 2, 1, ("sem",)), (2, 2, 2, 1, 1, ("sc", "alleles")), (3, 2, 2, 1, 1, ("sem",)), (2, 1, 3, 2, 1, ("sem", "sc"))]
+QUICK = [(2, 2, 2, 2, 1, ("sem",)), (2, 2, 2, 1, 1, ("sc", "alleles")), (3, 2, 2, 1, 1, ("sem",)), (2, 1, 3, 2, 1, ("sem", "sc")), (2, 1, 2, 2, 0, ("alleles",))]
 THOROUGH = [(2, 2, 2, 2, 2, ("sem", "sc", "alleles")), (3, 2, 2, 1, 1, ("sem", "sc", "alleles")), (2, 1, 3, 2, 2, ("sem", "sc", "alleles")),
             (3, 2, 2, 2, 1, ("sem",)), (2, 3, 2, 2, 1, ("sem", "sc")), (2, 2, 3, 2, 1, ("sem", "sc")), (3, 2, 3, 1, 1, ("sem",)),
             (4, 2, 2, 1, 1, ("sem",)), (3, 3, 2, 1, 1, ("sem",))]
@@ -210,11 +210,9 @@ def run_config(c, col):
                 al = E.SArray(P, rnp.int64)
                 for h in range(P):
                     rnp.ndarray.__setitem__(al, h, E.SymInt(E.fresh_int(ctx, "a_%d" % h, 0, len(haps_list) - 1)))
-                k0 = E.fresh_int(ctx, "k0", 0, 2)
                 counts = E.SArray(R + 1, rnp.int64)
-                rnp.ndarray.__setitem__(counts, 0, E.SymInt(k0))
-                for r in range(1, R):
-                    rnp.ndarray.__setitem__(counts, r, 1)
+                for r in range(R):
+                    rnp.ndarray.__setitem__(counts, r, E.SymInt(E.fresh_int(ctx, "k%d" % r, 0, 2)))  # zero counts anywhere
                 rnp.ndarray.__setitem__(counts, R, 0)  # zero-count padding read
                 pad, raw2 = _reads(ctx, 1, B, A, strict=True, tag="pad", GR=0)
                 reads_p = E.np.concatenate([reads, pad])
